@@ -1220,7 +1220,8 @@ where
         self.topic_alias_send = None;
         self.topic_alias_recv = None;
         self.publish_recv.clear();
-        self.need_store = false;
+        // Offline publishing needs the store for as long as it is enabled.
+        self.need_store = self.offline_publish;
         self.pid_suback.clear();
         self.pid_unsuback.clear();
         self.is_client = is_client;
